@@ -339,7 +339,10 @@ def _render_arg(arg):
     if len(parts) > 1:
         arg, default = parts[0].strip(), "=".join(parts[1:]).strip()
     m = _TYPE_RE.match(arg)
-    if m:
+    mnd = re.match(r"^(?:np|numpy)\.ndarray(?:\s*\[[^\]]*\])?\s+(\w+)$", arg)
+    if mnd:
+        out = mnd.group(1)                      # buffer-typed ndarray argument: plain object
+    elif m:
         out = '%s: "%s"' % (m.group(2), _norm_type(m.group(1)))
     elif re.match(r"^\w+$", arg):
         out = arg
@@ -420,6 +423,12 @@ def _phase_a(text, fname):
             raise RenderError("%s:%d: construct %r not modelled" % (fname, i + 1, s))
         if re.search(r"<\s*" + _BASE + r"\s*\**\s*>", s):
             raise RenderError("%s:%d: C casts are not modelled" % (fname, i + 1))
+        # directive decorators (@cython.boundscheck(False) ...): dropped; the model keeps the
+        # file-level setting, which is at least as strict about out-of-range indices
+        if re.match(r"^@\s*cython\.\w+\(.*\)\s*$", s):
+            out.append(indent + "pass" if False else "")
+            i += 1
+            continue
         # with nogil / gil
         m = re.match(r"^with\s+(nogil|gil)\s*:\s*$", s)
         if m:
